@@ -7,9 +7,13 @@ import (
 
 	"github.com/fiorix/go-diameter/diam"
 	"github.com/fiorix/go-diameter/diam/datatype"
+	"github.com/fiorix/go-diameter/diam/sm"
 
 	charging_datatype "github.com/free5gc/chf/ccs_diameter/datatype"
+	chf_context "github.com/free5gc/chf/internal/context"
+	"github.com/free5gc/chf/internal/rating"
 	abmfsrv "github.com/free5gc/chf/pkg/abmf"
+	"github.com/free5gc/chf/pkg/factory"
 	rfsrv "github.com/free5gc/chf/pkg/rf"
 	vx "github.com/free5gc/chf/zzvx"
 )
@@ -94,4 +98,57 @@ func ZZ_C17_AbsentMembersAreReceivedAsAbsent() {
 	s2, _ := vx.DBGet("imsi-ab", 1, "quota")
 	b2, _ := strconv.ParseInt(s2, 10, 64)
 	vx.Assert("a request without a requested-unit group does not act on the amount of an earlier request", b2 == b1)
+}
+
+// C17 (what the CHF's rating client hands to its caller): the answer of a
+// rating peer - here a peer defined by the harness, which answers with every
+// combination of the optional tariff members (no tariff; tariff without rate
+// element; rate element without unit cost; scale factor / currency / unit
+// type with or without unit cost) - is received by the caller of
+// rating.SendServiceUsageRequest member for member as the peer sent it.
+//
+//gosx:property=C17 tier=quick unwind=40 timeout=30000
+func ZZ_C17_RatingAnswerReceivedAsSent() {
+	self := chf_context.GetSelf()
+	self.RatingCfg = &sm.Settings{OriginHost: "chf-rating", OriginRealm: "realm"}
+	self.AbmfCfg = &sm.Settings{OriginHost: "chf-abmf", OriginRealm: "realm"}
+	factory.ChfConfig = &factory.Config{Configuration: &factory.Configuration{VolumeThresholdRate: 0.8,
+		RfDiameter:   &factory.Diameter{Protocol: "tcp", HostIPv4: "127.0.0.1", Port: 3868, Tls: &factory.Tls{Pem: "rf.pem", Key: "rf.key"}},
+		AbmfDiameter: &factory.Diameter{Protocol: "tcp", HostIPv4: "127.0.0.1", Port: 3869, Tls: &factory.Tls{Pem: "abmf.pem", Key: "abmf.key"}}}}
+	ue, err := self.NewCHFUe("imsi-208930000000001")
+	if err != nil || ue == nil {
+		vx.Fail("subscriber context created")
+		return
+	}
+	var sent charging_datatype.ServiceUsageResponse
+	sent.SessionId = "s"
+	sr := &charging_datatype.ServiceRating{ServiceIdentifier: 1, Price: datatype.Unsigned32(vx.Uint32("price")), AllowedUnits: datatype.Unsigned32(vx.Uint32("allowed"))}
+	shape := vx.Choice("tariff", 5)
+	if shape >= 1 {
+		mt := &charging_datatype.MonetaryTariff{CurrencyCode: datatype.Unsigned32(vx.Uint32("currency"))}
+		if shape >= 2 {
+			mt.ScaleFactor = &charging_datatype.ScaleFactor{ValueDigits: datatype.Integer64(vx.Int64("scale.digits")), Exponent: datatype.Integer32(vx.Int32("scale.exp"))}
+		}
+		if shape >= 3 {
+			mt.RateElement = &charging_datatype.RateElement{CCUnitType: charging_datatype.MONEY}
+		}
+		if shape >= 4 {
+			mt.RateElement.UnitCost = &charging_datatype.UnitCost{ValueDigits: datatype.Integer64(vx.Int64("cost.digits")), Exponent: datatype.Integer32(vx.Int32("cost.exp"))}
+		}
+		sr.MonetaryTariff = mt
+	}
+	sent.ServiceRating = sr
+	vx.Register("diam.server.111", diam.HandlerFunc(func(c diam.Conn, m *diam.Message) {
+		a := m.Answer(diam.Success)
+		if a.Marshal(&sent) == nil {
+			a.WriteTo(c)
+		}
+	}))
+	sub := &charging_datatype.SubscriptionId{SubscriptionIdType: charging_datatype.END_USER_IMSI, SubscriptionIdData: "208930000000001"}
+	got, err := rating.SendServiceUsageRequest(ue, &charging_datatype.ServiceUsageRequest{SessionId: "s", SubscriptionId: sub,
+		ServiceRating: &charging_datatype.ServiceRating{ServiceIdentifier: 1, RequestSubType: charging_datatype.REQ_SUBTYPE_RESERVE}})
+	vx.Assert("the rating answer reaches the caller", err == nil && got != nil)
+	if err == nil && got != nil {
+		vx.Assert("the answer handed to the caller is, member for member, what the peer sent", vx.Equal(*got, sent))
+	}
 }
